@@ -340,4 +340,170 @@ decreasing_by
     rw [eatWsC_fst]
     simp; omega
 
+theorem profilesLoop_ok (t : Tok) (ts p r2) (h0 : t.1 = .L_ANGLE) (h1 : profTerms ts = .ok (p, r2)) :
+    profilesLoop (t :: ts) =
+      match profilesLoop (eatWs r2) with
+      | .ok (more, r3) => .ok (p :: more, r3)
+      | .error e => .error e := by
+  rw [profilesLoop]; simp only [if_pos h0]
+  split
+  · rename_i h2; rw [h1] at h2; cases h2
+  · rename_i h2; rw [h1] at h2; cases h2; rfl
+
+theorem profilesLoopC_fst (ts) : (profilesLoopC ts).1 = profilesLoop ts := by
+  fun_induction profilesLoopC ts
+  case case1 => simp [profilesLoop]
+  case case2 t ts h0 e n h =>
+    have h1 : profTerms ts = .error e := by rw [← profTermsC_fst, h]
+    rw [profilesLoop]; simp only [if_pos h0]
+    split
+    · rename_i h2; rw [h1] at h2; cases h2; rfl
+    · rename_i h2; rw [h1] at h2; cases h2
+  case case3 t ts h0 p r2 n h ih =>
+    have h1 : profTerms ts = .ok (p, r2) := by rw [← profTermsC_fst, h]
+    rw [profilesLoop_ok t ts p r2 h0 h1]
+    simp only [eatWsC_fst] at ih ⊢
+    rw [ih]
+    rcases profilesLoop (eatWs r2) with e | ⟨m, r3⟩ <;> rfl
+  case case4 t ts h0 => rw [profilesLoop]; simp [h0]
+
+/-- the restriction lists: on success rounds + tokens left ≤ tokens, on failure rounds ≤ tokens + 1 -/
+theorem profilesLoopC_cost (ts) : (profilesLoopC ts).2 + slack (profilesLoop ts) ≤ ts.length + 1 := by
+  rw [← profilesLoopC_fst]
+  fun_induction profilesLoopC ts
+  case case1 => simp
+  case case2 t ts h0 e n h =>
+    have h1 : profTerms ts = .error e := by rw [← profTermsC_fst, h]
+    have := profTermsC_cost ts
+    rw [h, h1] at this; simp at this ⊢; omega
+  case case3 t ts h0 p r2 n h ih =>
+    have h1 : profTerms ts = .ok (p, r2) := by rw [← profTermsC_fst, h]
+    have c1 := profTermsC_cost ts
+    have c2 := eatWsC_cost r2
+    rw [h, h1] at c1
+    simp only [eatWsC_fst, slack_ok, List.length_cons] at ih c1 c2 ⊢
+    rcases h4 : (profilesLoopC (eatWs r2)).1 with e | ⟨m, r3⟩ <;> simp [h4] at ih ⊢ <;> omega
+  case case4 t ts h0 => simp
+
+/-! ### one relation -/
+
+/-- `<lossy::Relation as FromStr>::from_str` on the token list, with the rounds of all its loops -/
+def readRelationToksC (ts : List Tok) : R Relation × Nat :=
+  match readName ts with
+  | .error e => (.error e, 0)
+  | .ok (name, r1) =>
+    match readArchqual (eatWsC r1).1 with
+    | .error e => (.error e, (eatWsC r1).2)
+    | .ok (aq, r2) =>
+      match readVersionC (eatWsC r2).1 with
+      | (.error e, n3) => (.error e, (eatWsC r1).2 + (eatWsC r2).2 + n3)
+      | (.ok (ver, r3), n3) =>
+        match readArchsC (eatWsC r3).1 with
+        | (.error e, n4) => (.error e, (eatWsC r1).2 + (eatWsC r2).2 + n3 + (eatWsC r3).2 + n4)
+        | (.ok (archs, r4), n4) =>
+          match profilesLoopC (eatWsC r4).1 with
+          | (.error e, n5) =>
+            (.error e, (eatWsC r1).2 + (eatWsC r2).2 + n3 + (eatWsC r3).2 + n4 + (eatWsC r4).2 + n5)
+          | (.ok (profs, r5), n5) =>
+            (match (eatWsC r5).1 with
+             | [] => .ok ⟨name, aq, archs, ver, profs⟩
+             | t :: _ => .error s!"Unexpected token: {kindName t.1}",
+             (eatWsC r1).2 + (eatWsC r2).2 + n3 + (eatWsC r3).2 + n4 + (eatWsC r4).2 + n5
+               + (eatWsC r5).2)
+
+theorem readRelationToksC_fst (ts) : (readRelationToksC ts).1 = readRelationToks ts := by
+  simp only [readRelationToksC, readRelationToks, eatWsC_fst]
+  rcases readName ts with e | ⟨name, r1⟩
+  · rfl
+  · simp only
+    rcases readArchqual (eatWs r1) with e | ⟨aq, r2⟩
+    · rfl
+    · simp only
+      have a := readVersionC_fst (eatWs r2)
+      rcases hv : readVersionC (eatWs r2) with ⟨res, n3⟩
+      rw [hv] at a; simp only at a; subst a
+      rcases readVersion (eatWs r2) with e | ⟨ver, r3⟩
+      · rfl
+      · simp only
+        have a := readArchsC_fst (eatWs r3)
+        rcases hv : readArchsC (eatWs r3) with ⟨res, n4⟩
+        rw [hv] at a; simp only at a; subst a
+        rcases readArchs (eatWs r3) with e | ⟨archs, r4⟩
+        · rfl
+        · simp only
+          have a := profilesLoopC_fst (eatWs r4)
+          rcases hv : profilesLoopC (eatWs r4) with ⟨res, n5⟩
+          rw [hv] at a; simp only at a; subst a
+          rcases profilesLoop (eatWs r4) with e | ⟨profs, r5⟩
+          · rfl
+          · simp only
+            rcases eatWs r5 with _ | ⟨t, _⟩ <;> rfl
+
+theorem readName_len (ts name r1) (h : readName ts = .ok (name, r1)) : r1.length + 1 = ts.length := by
+  cases ts with
+  | nil => simp [readName] at h
+  | cons t ts =>
+    simp only [readName] at h
+    split at h
+    · simp at h; simp [h.2]
+    · simp at h
+
+theorem readArchqual_len (ts aq r2) (h : readArchqual ts = .ok (aq, r2)) : r2.length ≤ ts.length := by
+  cases ts with
+  | nil => simp [readArchqual] at h; simp [h.2]
+  | cons t ts =>
+    simp only [readArchqual] at h
+    split at h
+    · split at h
+      · simp at h
+      · split at h
+        · simp at h; simp [← h.2]; omega
+        · simp at h
+    · simp at h; simp [← h.2]
+
+/-- one relation: the rounds of all loops together ≤ tokens (the name, `(` and `)` are consumed
+    outside the loops and pay for the three non-consuming rounds) -/
+theorem readRelationToksC_cost (ts) : (readRelationToksC ts).2 ≤ ts.length := by
+  simp only [readRelationToksC, eatWsC_fst]
+  rcases h1 : readName ts with e | ⟨name, r1⟩
+  · simp
+  · simp only
+    have l1 := readName_len _ _ _ h1
+    have w1 := eatWsC_cost r1
+    rcases h2 : readArchqual (eatWs r1) with e | ⟨aq, r2⟩
+    · simp only; omega
+    · simp only
+      have l2 := readArchqual_len _ _ _ h2
+      have w2 := eatWsC_cost r2
+      have a := readVersionC_fst (eatWs r2)
+      have c3 := readVersionC_cost (eatWs r2)
+      rcases hv : readVersionC (eatWs r2) with ⟨res, n3⟩
+      rw [hv] at a c3; simp only at a c3; subst a
+      rcases h3 : readVersion (eatWs r2) with e | ⟨ver, r3⟩
+      · rw [h3] at c3; simp at c3 ⊢; omega
+      · rw [h3] at c3; simp only [slack_ok] at c3 ⊢
+        have w3 := eatWsC_cost r3
+        have a := readArchsC_fst (eatWs r3)
+        have c4 := readArchsC_cost (eatWs r3)
+        rcases hv : readArchsC (eatWs r3) with ⟨res, n4⟩
+        rw [hv] at a c4; simp only at a c4; subst a
+        rcases h4 : readArchs (eatWs r3) with e | ⟨archs, r4⟩
+        · rw [h4] at c4; simp at c4 ⊢; omega
+        · rw [h4] at c4; simp only [slack_ok] at c4 ⊢
+          have w4 := eatWsC_cost r4
+          have a := profilesLoopC_fst (eatWs r4)
+          have c5 := profilesLoopC_cost (eatWs r4)
+          rcases hv : profilesLoopC (eatWs r4) with ⟨res, n5⟩
+          rw [hv] at a c5; simp only at a c5; subst a
+          rcases h5 : profilesLoop (eatWs r4) with e | ⟨profs, r5⟩
+          · rw [h5] at c5; simp at c5 ⊢; omega
+          · rw [h5] at c5; simp only [slack_ok] at c5 ⊢
+            have w5 := eatWsC_cost r5
+            omega
+
+/-- `<lossy::Relation as FromStr>::from_str` with its round count -/
+def readRelationC (s : Str) : R Relation × Nat := readRelationToksC (lex s)
+
+theorem readRelationC_fst (s) : (readRelationC s).1 = readRelation s := readRelationToksC_fst _
+
 end Deb822Verif.Rel.Lossy
